@@ -44,6 +44,14 @@ def attack_templates():
         [O(1), R(1, "B", "a1"), O(2), C(2, "m1"), R(2, "B", "a2")],          # same key on a second connection
         [O(1), R(1, "B", "a1"), X(1), O(2), C(2, "m1"), R(2, "B", "a2")],    # reconnection under the same key
         [O(2), C(2, "m1"), X(2), O(2), R(2, "B", "a1")],          # answer to a challenge of the previous connection of a static peer
+        # a handshake fails, the peer's challenge is delivered again before the socket is gone (the node issues a fresh
+        # challenge of its own in a state in which it no longer expects a handshake), close, reconnect, and the withheld
+        # answer to that last challenge is played on the new connection (static peer: the peer object is reused)
+        [O(2), C(2, "m1"), R(2, "B", "a1", False), C(2, "m2"), X(2), O(2), R(2, "B", "a2")],
+        [O(2), C(2, "m1"), R(2, "M", "a1", False), C(2, "m1"), X(2), O(2), C(2, "m3"), R(2, "B", "a2")],
+        [O(2), C(2, "m1"), R(2, "B", "a1", True, "incompatible"), C(2, "m2"), X(2), O(2), R(2, "B", "a2")],
+        [O(1), R(1, "B", "a1", False), C(1, "m1"), X(1), O(1), R(1, "B", "a2")],
+        [O(2), C(2, "m1"), R(2, "B", "a1", False), C(2, "m2"), X(2), X(2), O(2), R(2, "B", "a2")],
         [O(2), R(2, "B", "zero")],                                # unsolicited response signed over the all-zero challenge
         [O(1), R(1, "B", "a1"), R(1, "B", "zero")],
         [O(2), C(2, "zero"), R(2, "B", "a1")],
